@@ -18,7 +18,7 @@ INVS = ["InvInactive", "InvStrings", "InvPassThrough", "InvRefEq", "InvCond", "I
 DEVS = [("NestedIfIgnoresParent", "InvInactive"), ("InactiveDirectivesEffective", "InvInactive"),
         ("PrefixMatch", "InvRefEq"), ("ExpandInStrings", "InvStrings"), ("StripWs", "InvPassThrough"),
         ("NestedIfIgnoresParent", "InvCond"), ("InactiveDirectivesEffective", "InvUndef")]
-BC_TEXT = "/* c1\nc2 */"
+BC_TEXT = {"bc": "/* c1\nc2 */", "bc0": "/* c1\n*/"}
 BS_NL = "\\\n"
 
 
@@ -48,7 +48,7 @@ def render_line(line):
     if k in ("else", "endif"):
         return "#" + k
     if k == "text":
-        return (BC_TEXT if line["join"] == "bc" else BS_NL).join(spell(s) for s in line["segs"])
+        return BC_TEXT.get(line["join"], BS_NL).join(spell(s) for s in line["segs"])
     raise vlib.MachineryError("line kind " + k)
 
 
@@ -179,6 +179,10 @@ def rand_text(rng, stringify_defined):
         return text("comment-block-then-string", False, [{"k": "bc", "s": rng.choice(["/* c */", "/* \" */", "/* M1 */"])}] + glue +
                     [Str(rng.choice(["a // b", "M1", "/* x", "x */ y"])), WS, Id(rng.choice(["M1", "b"]))])
     if ch < 0.92:
+        if rng.random() < 0.5:
+            # the closing marker of the comment is the first thing on its line; behind it text or nothing
+            return {"k": "text", "tag": "comment-block-closed-at-line-start", "rich": False, "join": "bc0",
+                    "segs": [rng.choice([[Id("a"), WS], []]), rng.choice([[WS, Id(rng.choice(["M1", "b"]))], []])]}
         return {"k": "text", "tag": "comment-block-multiline", "rich": False, "join": "bc", "segs": [[Id("a"), WS], [WS, Id(rng.choice(["M1", "b"]))]]}
     if ch < 0.95:
         w = rng.choice(["M1", "M2", "foo"])
